@@ -3,3 +3,4 @@ import BezierVerif.Basic
 import BezierVerif.DriverMain
 import BezierVerif.Props.C01
 import BezierVerif.Props.C09
+import BezierVerif.Props.C10
